@@ -58,7 +58,8 @@ def float2mpf(ctx, x):
         prec = get_precision(x)
         _, rounding = ctx._prec_rounding
         mantissa, exponent = numpy.frexp(x)
-        man_ = ctx.ldexp(mantissa, prec)
+        # numpy.ldexp is exact here; ctx.ldexp would round a float16/float32 mantissa to the context precision
+        man_ = numpy.ldexp(mantissa, prec)
         man = int(man_)
         assert man == man_
         exp_ = exponent - prec
